@@ -560,9 +560,13 @@ def check_eq_pair(s1, s2, acct, known=()):
     for p in probes_for(s1) + probes_for(s2):
       ga, _ = call_bool(a, p)
       gb, _ = call_bool(b, p)
-      if ga != gb:
+      ma = mb = None
+      if ga and gb and hasattr(a, 'is_marginal') and hasattr(b, 'is_marginal'):
+        ma, _ = call_bool(a.is_marginal, p)       # "decide identically" covers the marginal verdict on a passing value
+        mb, _ = call_bool(b.is_marginal, p)
+      if ga != gb or ma != mb:
         sig = 'C07/%s/equal-but-decide-differently' % s1['k']
-        d = '%s == %s but on %r: %s vs %s' % (a, b, p, ga, gb)
+        d = '%s == %s but on %r: accept %s vs %s, marginal %s vs %s' % (a, b, p, ga, gb, ma, mb)
         out.append((sig, d))
         if acct is not None:
           (acct.known if sig in known else acct.violation)(sig, case, d)
@@ -680,7 +684,8 @@ def eq_pairs():
   a = [{'k': 'in_range', 'a': [enc(x) for x in t]} for t in
        [[1, 5, None, None], [1.0, 5.0, None, None], [1, 5, 2, None], [1, 5, 2, 4], [1, 8, None, None], [None, 5, None, None], [True, 5, None, None]]]
   a += [{'k': 'in_range', 'a': ['1', '5', None, None], 't': 'int'}, {'k': 'in_range', 'a': ['1', '5', None, None], 't': 'float'}]
-  a += [{'k': 'within_percent', 'a': t} for t in [[100, 10], [100, 10.0], [100.0, 10, None], [100, 10, 5], [100, 5], [-100, 10]]]
+  a += [{'k': 'within_percent', 'a': t} for t in [[100, 10], [100, 10.0], [100.0, 10, None], [100, 10, 5], [100, 5], [-100, 10], [100, 10, 0], [100, 10, 0.0],
+                                                 [-50, 200], [-50, 200, 0], [-50, 200, None]]]
   a += [{'k': 'equals', 'a': [x]} for x in ['abc', 'a.c', 'abd']] + [{'k': 'matches_regex', 'a': [r]} for r in ['^abc$', 'abc', 'a.c']]
   a += [{'k': 'equals', 'a': [enc(x)]} for x in [(1, 2), [1, 'a'], None]]
   return list(itertools.combinations(a, 2))
